@@ -3,7 +3,7 @@
 // the same output lines as capi_driver.c in `hexvalues 1` mode (values are printed as hex, "EMPTY" for the empty one):
 //   name, rule <k> obs= req= follow= br=<slot>:<a,b>:<c,d> disc=, set, db, schema, restart, build <k>      (synchronous completion only)
 //   shape <k> <0 default 16 bytes | 1 empty | 2 one byte | 3 all NUL, 1..20 bytes | 4 4096 bytes>
-//   validret <k> <0|1>      isResultValid of rule k answers (stamp still current) && <b>
+//   validret <k> <0|1>      isResultValid of rule k answers (stamp still current) && <b>;   force <k> <0|1>: complete(value, forceChange = <b>)
 //   hexvalues 1             (ignored here: always on)
 // Lines: build, restart, valid <k> <answer> <value>, create, start, provide <k> <id> <key> <value>, avail, complete <k> <value>,
 // status <k> <kind>, cycle, error, result <value>, dbsnap <n> (copy of the database in <workdir>/snap-<n>.db).
@@ -22,7 +22,7 @@ using namespace llbuild::core;
 struct RuleDef { bool obs = true; std::vector<int> req, follow, disc, brA, brB; int brslot = -1; };
 static std::map<int, RuleDef> g_pending, g_defs;
 static std::map<int, uint64_t> g_env;
-static std::map<int, int> g_shape, g_validret;
+static std::map<int, int> g_shape, g_validret, g_force;
 static std::map<int, std::string> g_names;
 static std::map<std::string, int> g_ids;
 static bool g_in_build = false;
@@ -87,7 +87,7 @@ struct DTask : Task {
     ValueType v = shaped(g_shape.count(k) ? g_shape[k] : 0, h, obs);
     for (int x : d.disc) ti.discoveredDependency(kname(x));
     ev("complete %d %s", k, xs(v).c_str());
-    ti.complete(std::move(v));
+    ti.complete(std::move(v), g_force.count(k) && g_force[k]);
   }
 };
 struct DRule : Rule {
@@ -158,6 +158,7 @@ int main(int argc, char** argv) {
     else if (t[0] == "set") g_env[atoi(t[1].c_str())] = strtoull(t[2].c_str(), 0, 10);
     else if (t[0] == "shape") g_shape[atoi(t[1].c_str())] = atoi(t[2].c_str());
     else if (t[0] == "validret") g_validret[atoi(t[1].c_str())] = atoi(t[2].c_str());
+    else if (t[0] == "force") g_force[atoi(t[1].c_str())] = atoi(t[2].c_str());
     else if (t[0] == "hexvalues" || t[0] == "idbase" || t[0] == "ids") {}  // idbase / ids: the C driver chooses other input ids and prints the slot they stand for
     else if (t[0] == "db") { usedb = t[1] != "0"; if (t[1] == "1" && !started) unlink(dbpath.c_str()); }
     else if (t[0] == "schema") schema = (uint32_t)strtoul(t[1].c_str(), 0, 10);
